@@ -289,6 +289,10 @@ func genPathItem(r *rng.R, d *doc) item {
 var words = []string{"lorem", "ipsum", "dolor", "sit", "amet", "fi", "Wave", "AVATAR", "(paren)", "back\\slash", "naïve", "über", "Œuvre", "10", "Tj", "ET", "čaj", "日本", "x\ty", "100%", "a%20b", "%d%s", "50%)", "▒%v", "line\nbreak"}
 
 func genString(r *rng.R) string {
+	if r.P(1, 12) {
+		// characters the bundled fonts do not have: every glyph of the span is .notdef, the font is used all the same
+		return rng.Pick(r, []string{"中文", "日本語", "\u4e2d", "中 文"})
+	}
 	n := 1 + r.Intn(5)
 	var ws []string
 	for i := 0; i < n; i++ {
